@@ -358,9 +358,13 @@ func (w *W) record(idx uint64) {
 	w.hist = append(w.hist, r)
 }
 
-// DirectAt returns the recorded direct query result of the current store generation as of raft
-// index idx: the result recorded after the last write with an index <= idx (a restore counts as
-// the first write of a new generation and stands for every older index).
+// DirectAt returns the recorded direct query results that a non-streaming client could have been
+// given "at index idx" by the current store generation (a restore counts as the first write of a new
+// generation and stands for every older index):
+//   - the result recorded after the last write with a raft index <= idx, and
+//   - every recorded result whose own reported query index equals idx (the store may change a
+//     result without moving its query index; which of them "the" result at idx is, is the business
+//     of the blocking-query contract, not of streaming).
 func (w *W) DirectAt(ts TS, idx uint64) M {
 	r := w.hist[0]
 	for _, h := range w.hist {
@@ -368,8 +372,14 @@ func (w *W) DirectAt(ts TS, idx uint64) M {
 			r = h
 		}
 	}
-	q := r.q[ts.key()]
-	return M{"at": r.idx, "idx": q["idx"], "rows": q["rows"]}
+	cands := []M{{"at": r.idx, "idx": r.q[ts.key()]["idx"], "rows": r.q[ts.key()]["rows"]}}
+	for _, h := range w.hist {
+		q := h.q[ts.key()]
+		if h.idx != r.idx && toU(q["idx"]) == idx {
+			cands = append(cands, M{"at": h.idx, "idx": q["idx"], "rows": q["rows"]})
+		}
+	}
+	return M{"cands": cands}
 }
 
 // ---------------------------------------------------------------- commands
@@ -505,10 +515,18 @@ func (w *W) snapshotBytes() ([]byte, error) {
 // Restore installs the snapshot that was taken after raft index `to` through FSM.Restore (new
 // state store, RefreshAllTopics under the state lock, old store abandoned) at raft index idx.
 func (w *W) Restore(c M) (M, error) {
-	b, ok := w.snaps[toU(c["to"])]
+	// the store as it was at raft index `to` = the snapshot taken after the last write <= to
+	var b []byte
+	best, ok := uint64(0), false
+	for k := range w.snaps {
+		if k <= toU(c["to"]) && (!ok || k >= best) {
+			best, ok = k, true
+		}
+	}
 	if !ok {
 		return nil, fmt.Errorf("no snapshot for index %v", c["to"])
 	}
+	b = w.snaps[best]
 	if err := w.FSM.Restore(io.NopCloser(bytes.NewReader(b))); err != nil {
 		return nil, err
 	}
@@ -776,7 +794,7 @@ func (w *W) Project() (M, error) {
 	}
 	cls := []M{}
 	for _, cl := range w.Cl {
-		m := M{"state": "none", "topic": cl.ts.Topic, "subj": w.SKey(cl.ts), "tok": cl.tok, "pend": []M{}, "perr": false,
+		m := M{"state": "none", "live": cl.live, "topic": cl.ts.Topic, "subj": w.SKey(cl.ts), "tok": cl.tok, "pend": []M{}, "perr": false,
 			"snapidx": cl.snapidx, "ridx": cl.ridx, "view": w.viewRows(cl), "vidx": cl.vidx, "mode": cl.mode, "acc": append([]M{}, cl.accProj...)}
 		if cl.sub != nil {
 			m["state"] = stateNames[cl.sub.VerifState()]
